@@ -86,8 +86,14 @@ func (cx *world) checkChain(tag, where string, ch *core.BlockChain, disk *simdis
 			bad("invalid-block-canonical", "canonical(%d)=%s is not a valid generated block", n, cx.nameOf(hash))
 		case !bytes.Equal(encHeader(hdr), vn.hdrRLP):
 			bad("invalid-block-canonical", "canonical(%d)=%s: stored header (votes/signature/certificate) differs from the valid block's", n, vn.name)
+		case !bytes.Equal(encHeader(blk.Header()), vn.hdrRLP):
+			bad("invalid-block-canonical", "canonical(%d)=%s: the header of the block GetBlockByNumber returns (votes/signature/certificate) differs from the valid block's (header in the database matches: %v)", n, vn.name, bytes.Equal(encHeader(rawdb.ReadHeader(disk, hash, n)), vn.hdrRLP))
 		case types.DeriveSha(blk.Transactions()) != hdr.TxHash:
-			bad("invalid-block-canonical", "canonical(%d)=%s: stored body does not match the header's transaction root", n, vn.name)
+			onDisk := "missing"
+			if body := rawdb.ReadBody(disk, hash, n); body != nil {
+				onDisk = fmt.Sprint(types.DeriveSha(types.Transactions(body.Transactions)) == hdr.TxHash)
+			}
+			bad("invalid-block-canonical", "canonical(%d)=%s: the body GetBlockByNumber returns does not match the header's transaction root (body in the database matches: %s)", n, vn.name, onDisk)
 		}
 		prev = hash
 	}
